@@ -9,7 +9,8 @@ ProdA == {Art(PA, "h1")}
 \* names of calendar extremes which the concretisation spells out (year 1, 1000, 1500, 1699, 293 and 292
 \* years before; 292 and 293 years after, year 9999) - a strictly monotone map, so `<` means the same.
 \* -2020000000: the latest 30 December (noon) before the verification time that lies in ISO week 1 of the next year.
-Offsets == {-2100000000, -2090000000, -2080000000, -2070000000, -2060000000, -2050000000, -2020000000,
+\* -2110000000: a year before year 0 (constructible through the builder, not writable in the document's notation).
+Offsets == {-2110000000, -2100000000, -2090000000, -2080000000, -2070000000, -2060000000, -2050000000, -2020000000,
             -2000000000, -86400, -3600, -61, -1, 0, 1, 61, 3600, 86400, 2000000000,
             2050000000, 2060000000, 2100000000}
 Fmts == {"Z", "+00:00", "-00:00", "+02:00", "-07:30", "+14:00", "Z.25", "Z.999999999", "+05:45.5", "lower"}
